@@ -12,157 +12,149 @@ Import ListNotations.
 Section RealPart.
 Local Open Scope R_scope.
 
+(* ---- automation, written to survive harmless rewrites of the source (renamed locals, x*x vs x**2,
+   commuted operands, a loop instead of sum(...)): normalise the Python run-time forms, then prove the
+   equality by congruence, descending through lists, sums over the same list, and function applications,
+   closing the leaves by reflexivity / ring / field ---- *)
+Lemma fold_left_ext {A B} (f g : A -> B -> A) l a : (forall a x, f a x = g a x) -> fold_left f l a = fold_left g l a.
+Proof. intro H. revert a; induction l as [|x l IH]; intro a; cbn; [reflexivity|]. rewrite H. apply IH. Qed.
+
+Lemma map_id' (l : list R) : map (fun xi : R => xi) l = l. Proof. apply map_id. Qed.
+
+(* accumulator loops `v += e` *)
+Lemma fold_add_pair {A B} (F : A -> B -> R) (l : list (A * B)) acc :
+  fold_left (fun (v : R) '(a, b) => v + F a b) l acc = acc + Rsum (map (fun '(a, b) => F a b) l).
+Proof.
+  rewrite (fold_left_ext _ (fun v q => v + (fun '(a, b) => F a b) q)) by (intros v [a b]; reflexivity).
+  apply fold_left_add_sum.
+Qed.
+
 Ltac lists_norm :=
   repeat first [ rewrite slice_tl | rewrite slice_init | rewrite zip_removelast_tl
-               | rewrite zget_0 | rewrite zget_1 | rewrite zget_2 | rewrite IZR_zlen | rewrite IZR_of_nat
-               | rewrite enumerate_indexed ].
-Ltac start := norm_dec; numR; lists_norm.
-Ltac pw := intros; repeat match goal with p : (_ * _)%type |- _ => destruct p end; cbn [fst snd];
-           first [reflexivity | ring | (field; fail) | lra | idtac].
-Ltac sum_ext := apply Rsum_map_ext; pw.
+               | rewrite zget_0 | rewrite zget_1 | rewrite zget_2
+               | rewrite mult_IZR | rewrite plus_IZR | rewrite minus_IZR
+               | rewrite IZR_zlen | rewrite IZR_of_nat
+               | rewrite enumerate_indexed | rewrite map_id'
+               | rewrite fold_add_pair | rewrite fold_left_add_sum
+               | rewrite reduce_mul | rewrite reduce_mul_fun
+               | rewrite Rplus_0_l | rewrite Rmult_1_l ].
+Ltac start := norm_dec; numR; cbv zeta; lists_norm.
+Ltac destruct_pairs := repeat match goal with p : (_ * _)%type |- _ => destruct p end; cbn [fst snd] in *.
+
+Ltac deepR :=
+  first [ reflexivity | ring | solve [field]
+        | lazymatch goal with
+          | |- Rsum (map _ ?l) = Rsum (map _ ?l) => apply Rsum_map_ext; intros; destruct_pairs; deepR
+          | |- ?f ?a ?b = ?f ?c ?d => apply (f_equal2 f); deepR
+          | |- ?f ?a = ?f ?b => apply (f_equal f); deepR
+          end ].
+Ltac deepL :=
+  first [ reflexivity
+        | lazymatch goal with
+          | |- _ :: _ = _ :: _ => apply (f_equal2 (@cons R)); [deepR | deepL]
+          | |- map _ ?l = map _ ?l => apply map_ext; intros; destruct_pairs; deepR
+          end ].
+Ltac deep := lazymatch goal with |- @eq R _ _ => deepR | |- _ => deepL end.
+(* the standard proof: unfold both sides (done by the caller), normalise, congruence *)
+Ltac gen_eq := start; deep.
 
 Lemma ge_plane (x : list R) : bm_plane x = spec_bm_plane x.
-Proof. unfold bm_plane, spec_bm_plane. start. reflexivity. Qed.
+Proof. unfold bm_plane, spec_bm_plane. gen_eq. Qed.
 Lemma ge_sphere (x : list R) : bm_sphere x = spec_bm_sphere x.
-Proof. unfold bm_sphere, spec_bm_sphere. start. f_equal. sum_ext. Qed.
+Proof. unfold bm_sphere, spec_bm_sphere. gen_eq. Qed.
 Lemma ge_cigar (x : list R) : bm_cigar x = spec_bm_cigar x.
-Proof. unfold bm_cigar, spec_bm_cigar. start. f_equal. f_equal. f_equal. sum_ext. Qed.
+Proof. unfold bm_cigar, spec_bm_cigar. gen_eq. Qed.
 Lemma ge_rosenbrock (x : list R) : bm_rosenbrock x = spec_bm_rosenbrock x.
-Proof. unfold bm_rosenbrock, spec_bm_rosenbrock, consec. start. f_equal. sum_ext. Qed.
+Proof. unfold bm_rosenbrock, spec_bm_rosenbrock, consec. gen_eq. Qed.
 Lemma ge_h1 (x : list R) : bm_h1 x = spec_bm_h1 x.
 Proof.
-  unfold bm_h1, spec_bm_h1. start. cbv zeta. f_equal. f_equal. f_equal.
-  apply Rpow_total_sqrt. apply Rplus_le_le_0_compat; apply pow2_ge_0.
+  unfold bm_h1, spec_bm_h1. start.
+  rewrite ?Rpow_total_sqrt by (apply Rplus_le_le_0_compat; apply pow2_ge_0). deep.
 Qed.
 Lemma ge_ackley (x : list R) : bm_ackley x = spec_bm_ackley x.
-Proof. unfold bm_ackley, spec_bm_ackley. start. reflexivity. Qed.
+Proof. unfold bm_ackley, spec_bm_ackley. gen_eq. Qed.
 Lemma ge_bohachevsky (x : list R) : bm_bohachevsky x = spec_bm_bohachevsky x.
-Proof. unfold bm_bohachevsky, spec_bm_bohachevsky, consec. start. f_equal. sum_ext. Qed.
+Proof. unfold bm_bohachevsky, spec_bm_bohachevsky, consec. gen_eq. Qed.
 Lemma ge_rastrigin (x : list R) : bm_rastrigin x = spec_bm_rastrigin x.
-Proof.
-  unfold bm_rastrigin, spec_bm_rastrigin. start. f_equal. f_equal.
-  - rewrite mult_IZR, IZR_zlen. reflexivity.
-  - sum_ext.
-Qed.
+Proof. unfold bm_rastrigin, spec_bm_rastrigin. gen_eq. Qed.
 Lemma ge_rastrigin_skew (x : list R) : bm_rastrigin_skew x = spec_bm_rastrigin_skew x.
-Proof.
-  unfold bm_rastrigin_skew, spec_bm_rastrigin_skew. start. cbv zeta. f_equal. f_equal.
-  rewrite mult_IZR, IZR_zlen. reflexivity.
-Qed.
+Proof. unfold bm_rastrigin_skew, spec_bm_rastrigin_skew. gen_eq. Qed.
 Lemma ge_schaffer (x : list R) : bm_schaffer x = spec_bm_schaffer x.
-Proof. unfold bm_schaffer, spec_bm_schaffer, consec. start. f_equal. sum_ext. Qed.
+Proof. unfold bm_schaffer, spec_bm_schaffer, consec. gen_eq. Qed.
 Lemma ge_schwefel (x : list R) : bm_schwefel x = spec_bm_schwefel x.
-Proof. unfold bm_schwefel, spec_bm_schwefel. start. reflexivity. Qed.
+Proof. unfold bm_schwefel, spec_bm_schwefel. gen_eq. Qed.
 Lemma ge_himmelblau (x : list R) : bm_himmelblau x = spec_bm_himmelblau x.
-Proof. unfold bm_himmelblau, spec_bm_himmelblau. start. cbv zeta. f_equal. ring. Qed.
-
-
+Proof. unfold bm_himmelblau, spec_bm_himmelblau. gen_eq. Qed.
 
 Lemma ge_griewank (x : list R) : bm_griewank x = spec_bm_griewank x.
 Proof.
-  unfold bm_griewank, spec_bm_griewank, indexed. start. f_equal. f_equal. f_equal.
-  rewrite reduce_mul, Rmult_1_l. unfold Rprod. f_equal. rewrite map_map. apply map_ext.
-  intros [i xi]. cbn [fst snd]. rewrite Nat2Z.inj_succ, succ_IZR. reflexivity.
+  unfold bm_griewank, spec_bm_griewank, indexed. start.
+  assert (E : forall l : list (nat * R),
+            Rprod (map (fun '(v_i, v_x) => cos (v_x / sqrt (IZR v_i + 1))) (map (fun p => (Z.of_nat (fst p), snd p)) l))
+            = fold_right Rmult 1 (map (fun p => cos (snd p / sqrt (IZR (Z.of_nat (S (fst p)))))) l)).
+  { intro l. unfold Rprod. f_equal. rewrite map_map. apply map_ext. intros [i xi]. cbn [fst snd].
+    rewrite Nat2Z.inj_succ, succ_IZR. reflexivity. }
+  first [ rewrite E; deep
+        | (* fallback when the source was restructured: plain congruence *) deep ].
 Qed.
 
 Lemma ge_rastrigin_scaled (x : list R) : bm_rastrigin_scaled x = spec_bm_rastrigin_scaled x.
 Proof.
-  unfold bm_rastrigin_scaled, spec_bm_rastrigin_scaled, indexed. start. cbv zeta. f_equal. f_equal.
-  - rewrite mult_IZR, IZR_zlen. reflexivity.
-  - rewrite map_map. f_equal. apply map_ext. intros [i xi]. cbn [fst snd].
-    rewrite minus_IZR, IZR_zlen. reflexivity.
+  unfold bm_rastrigin_scaled, spec_bm_rastrigin_scaled, indexed. start. rewrite ?map_map. cbn [fst snd]. deep.
 Qed.
 
 Lemma ge_shekel (x : list R) a c : bm_shekel x a c = spec_bm_shekel x a c.
 Proof.
-  unfold bm_shekel, spec_bm_shekel, indexed. start. f_equal. unfold zlen. rewrite py_range_seq, map_map.
-  f_equal. apply map_ext. intro i. rewrite !zget_nat. f_equal. f_equal.
-  rewrite enumerate_indexed, map_map. f_equal. apply map_ext. intros [j aij]. cbn [fst snd].
-  rewrite zget_nat. reflexivity.
+  unfold bm_shekel, spec_bm_shekel, indexed. start. unfold zlen. rewrite py_range_seq, map_map.
+  apply (f_equal2 (@cons R)); [|reflexivity]. apply Rsum_map_ext. intros i _. rewrite !zget_nat.
+  rewrite enumerate_indexed, map_map. cbn [fst snd].
+  apply f_equal. apply f_equal. apply Rsum_map_ext. intros [j aij] _. cbn [fst snd]. rewrite zget_nat. reflexivity.
 Qed.
 
 Lemma ge_kursawe (x : list R) : bm_kursawe x = spec_bm_kursawe x.
-Proof.
-  unfold bm_kursawe, spec_bm_kursawe, consec. start. cbv zeta. f_equal; [|f_equal].
-  - f_equal. apply map_ext. intros [a b]. cbn [fst snd]. replace (a * a) with (a ^ 2) by ring.
-    replace (b * b) with (b ^ 2) by ring. reflexivity.
-  - f_equal. apply map_ext. intro a. replace (a * a * a) with (a ^ 3) by ring. reflexivity.
-Qed.
-
+Proof. unfold bm_kursawe, spec_bm_kursawe, consec. gen_eq. Qed.
 Lemma ge_schaffer_mo (x : list R) : bm_schaffer_mo x = spec_bm_schaffer_mo x.
-Proof. unfold bm_schaffer_mo, spec_bm_schaffer_mo. start. reflexivity. Qed.
-
-Lemma map_id' (l : list R) : map (fun xi : R => xi) l = l. Proof. apply map_id. Qed.
-
+Proof. unfold bm_schaffer_mo, spec_bm_schaffer_mo. gen_eq. Qed.
 Lemma ge_zdt1 (x : list R) : bm_zdt1 x = spec_bm_zdt1 x.
-Proof.
-  unfold bm_zdt1, spec_bm_zdt1, zdt_g, zdt1_h. start. cbv zeta. rewrite map_id', minus_IZR, IZR_zlen.
-  reflexivity.
-Qed.
+Proof. unfold bm_zdt1, spec_bm_zdt1, zdt_g, zdt1_h. gen_eq. Qed.
 Lemma ge_zdt2 (x : list R) : bm_zdt2 x = spec_bm_zdt2 x.
-Proof.
-  unfold bm_zdt2, spec_bm_zdt2, zdt_g, zdt2_h. start. cbv zeta. rewrite map_id', minus_IZR, IZR_zlen.
-  reflexivity.
-Qed.
+Proof. unfold bm_zdt2, spec_bm_zdt2, zdt_g, zdt2_h. gen_eq. Qed.
 Lemma ge_zdt3 (x : list R) : bm_zdt3 x = spec_bm_zdt3 x.
-Proof.
-  unfold bm_zdt3, spec_bm_zdt3, zdt_g, zdt3_h. start. cbv zeta. rewrite map_id', minus_IZR, IZR_zlen.
-  reflexivity.
-Qed.
+Proof. unfold bm_zdt3, spec_bm_zdt3, zdt_g, zdt3_h. gen_eq. Qed.
 Lemma ge_zdt4 (x : list R) : bm_zdt4 x = spec_bm_zdt4 x.
-Proof.
-  unfold bm_zdt4, spec_bm_zdt4, zdt4_g, zdt1_h. start. cbv zeta.
-  rewrite plus_IZR, mult_IZR, minus_IZR, IZR_zlen. reflexivity.
-Qed.
+Proof. unfold bm_zdt4, spec_bm_zdt4, zdt4_g, zdt1_h. gen_eq. Qed.
 Lemma ge_zdt6 (x : list R) : bm_zdt6 x = spec_bm_zdt6 x.
-Proof.
-  unfold bm_zdt6, spec_bm_zdt6, zdt6_g, zdt6_f1, zdt2_h. start. cbv zeta. rewrite map_id', minus_IZR, IZR_zlen.
-  reflexivity.
-Qed.
+Proof. unfold bm_zdt6, spec_bm_zdt6, zdt6_g, zdt6_f1, zdt2_h. gen_eq. Qed.
 Lemma ge_fonseca (x : list R) : bm_fonseca x = spec_bm_fonseca x.
-Proof.
-  unfold bm_fonseca, spec_bm_fonseca. start. cbv zeta. rewrite slice_to by lia. reflexivity.
-Qed.
+Proof. unfold bm_fonseca, spec_bm_fonseca. start. rewrite ?slice_to by lia. deep. Qed.
 Lemma ge_poloni (x : list R) : bm_poloni x = spec_bm_poloni x.
-Proof. unfold bm_poloni, spec_bm_poloni, poloni_B1, poloni_B2. start. reflexivity. Qed.
+Proof. unfold bm_poloni, spec_bm_poloni, poloni_B1, poloni_B2. gen_eq. Qed.
 Lemma ge_dent (x : list R) l : bm_dent x l = spec_bm_dent x l.
-Proof. unfold bm_dent, spec_bm_dent. start. cbv zeta. reflexivity. Qed.
-
-
-
-Lemma fold_left_ext {A B} (f g : A -> B -> A) l a : (forall a x, f a x = g a x) -> fold_left f l a = fold_left g l a.
-Proof. intro H. revert a; induction l as [|x l IH]; intro a; cbn; [reflexivity|]. rewrite H. apply IH. Qed.
+Proof. unfold bm_dent, spec_bm_dent. gen_eq. Qed.
 
 Lemma ge_kotanchek (d : list R) : gp_kotanchek d = spec_gp_kotanchek d.
-Proof. unfold gp_kotanchek, spec_gp_kotanchek. start. reflexivity. Qed.
+Proof. unfold gp_kotanchek, spec_gp_kotanchek. gen_eq. Qed.
 Lemma ge_salustowicz_1d (d : list R) : gp_salustowicz_1d d = spec_gp_salustowicz_1d d.
-Proof. unfold gp_salustowicz_1d, spec_gp_salustowicz_1d, salustowicz. start. reflexivity. Qed.
+Proof. unfold gp_salustowicz_1d, spec_gp_salustowicz_1d, salustowicz. gen_eq. Qed.
 Lemma ge_salustowicz_2d (d : list R) : gp_salustowicz_2d d = spec_gp_salustowicz_2d d.
-Proof. unfold gp_salustowicz_2d, spec_gp_salustowicz_2d, salustowicz. start. reflexivity. Qed.
+Proof. unfold gp_salustowicz_2d, spec_gp_salustowicz_2d, salustowicz. gen_eq. Qed.
 Lemma ge_unwrapped_ball (d : list R) : gp_unwrapped_ball d = spec_gp_unwrapped_ball d.
-Proof. unfold gp_unwrapped_ball, spec_gp_unwrapped_ball. start. reflexivity. Qed.
+Proof. unfold gp_unwrapped_ball, spec_gp_unwrapped_ball. gen_eq. Qed.
 Lemma ge_rational_polynomial (d : list R) : gp_rational_polynomial d = spec_gp_rational_polynomial d.
-Proof. unfold gp_rational_polynomial, spec_gp_rational_polynomial. start. reflexivity. Qed.
+Proof. unfold gp_rational_polynomial, spec_gp_rational_polynomial. gen_eq. Qed.
 Lemma ge_sin_cos (d : list R) : gp_sin_cos d = spec_gp_sin_cos d.
-Proof. unfold gp_sin_cos, spec_gp_sin_cos. start. reflexivity. Qed.
+Proof. unfold gp_sin_cos, spec_gp_sin_cos. gen_eq. Qed.
 Lemma ge_ripple (d : list R) : gp_ripple d = spec_gp_ripple d.
-Proof. unfold gp_ripple, spec_gp_ripple. start. reflexivity. Qed.
+Proof. unfold gp_ripple, spec_gp_ripple. gen_eq. Qed.
 Lemma ge_rational_polynomial2 (d : list R) : gp_rational_polynomial2 d = spec_gp_rational_polynomial2 d.
-Proof. unfold gp_rational_polynomial2, spec_gp_rational_polynomial2. start. reflexivity. Qed.
-
-Lemma mp_loop (x p : list R) :
-  fold_left (fun (v : R) '(a, b) => let v0 := v + (a - b) ^ 2 in v0) (zip x p) 0 = dist2 x p.
-Proof.
-  rewrite (fold_left_ext _ (fun v q => v + (fun q => (fst q - snd q) ^ 2) q)) by (intros a [u w]; reflexivity).
-  rewrite fold_left_add_sum. unfold dist2. numR. ring.
-Qed.
+Proof. unfold gp_rational_polynomial2, spec_gp_rational_polynomial2. gen_eq. Qed.
 
 Lemma ge_mp_cone (x p : list R) h w : mp_cone x p h w = spec_mp_cone x p h w.
-Proof. unfold mp_cone, spec_mp_cone. start. cbv zeta. rewrite <- mp_loop. reflexivity. Qed.
+Proof. unfold mp_cone, spec_mp_cone, dist2. gen_eq. Qed.
 Lemma ge_mp_sphere (x p : list R) h w : mp_sphere x p h w = spec_mp_sphere x p h w.
-Proof. unfold mp_sphere, spec_mp_sphere. start. cbv zeta. rewrite <- mp_loop. reflexivity. Qed.
+Proof. unfold mp_sphere, spec_mp_sphere, dist2. gen_eq. Qed.
 Lemma ge_mp_function1 (x p : list R) h w : mp_function1 x p h w = spec_mp_function1 x p h w.
-Proof. unfold mp_function1, spec_mp_function1. start. cbv zeta. rewrite <- mp_loop. reflexivity. Qed.
+Proof. unfold mp_function1, spec_mp_function1, dist2. gen_eq. Qed.
 
 Lemma ge_mp_call fs ps hs ws basis (x : list R) : mp_call fs ps hs ws basis x = spec_mp_call fs ps hs ws basis x.
 Proof.
@@ -175,16 +167,16 @@ Qed.
 
 Lemma ge_mp_cp_count minp maxp (sev : R) n u1 u2 : mp_cp_count minp maxp sev n u1 u2 = spec_mp_cp_count minp maxp sev n u1 u2.
 Proof.
-  unfold mp_cp_count, spec_mp_cp_count. norm_dec. cbv zeta. rewrite !zlen_py_range.
+  unfold mp_cp_count, spec_mp_cp_count. norm_dec. cbv zeta. rewrite ?zlen_py_range.
   numR. destruct (Rltb u1 (1 / 2)); reflexivity.
 Qed.
 
 Lemma ge_translate_arg (t x : list R) : tl_translate_arg t x = spec_translate_arg t x.
-Proof. unfold tl_translate_arg, spec_translate_arg. start. apply map_ext. intros [a b]. reflexivity. Qed.
+Proof. unfold tl_translate_arg, spec_translate_arg. gen_eq. Qed.
 Lemma ge_scale_factor (s : list R) : tl_scale_factor s = spec_scale_factor s.
-Proof. unfold tl_scale_factor, spec_scale_factor. start. reflexivity. Qed.
+Proof. unfold tl_scale_factor, spec_scale_factor. gen_eq. Qed.
 Lemma ge_scale_arg (f x : list R) : tl_scale_arg f x = spec_scale_arg f x.
-Proof. unfold tl_scale_arg, spec_scale_arg. start. apply map_ext. intros [a b]. reflexivity. Qed.
+Proof. unfold tl_scale_arg, spec_scale_arg. gen_eq. Qed.
 Lemma ge_rotate_arg m (x : list R) : tl_rotate_arg m x = spec_rotate_arg m x.
 Proof. reflexivity. Qed.
 Lemma ge_noise_arg fs (x : list R) : tl_noise_arg fs x = spec_noise_arg fs x.
@@ -197,6 +189,12 @@ Proof.
   rewrite fold_left_app_acc2, flat_map_single. reflexivity.
 Qed.
 
+(* ---- the DTLZ family: structural proofs (the run-time forms are kept until the shape lemmas apply) ---- *)
+Ltac lists_norm0 :=
+  repeat first [ rewrite slice_tl | rewrite slice_init | rewrite zip_removelast_tl
+               | rewrite zget_0 | rewrite zget_1 | rewrite zget_2 | rewrite IZR_zlen | rewrite IZR_of_nat
+               | rewrite enumerate_indexed ].
+Ltac start0 := norm_dec; numR; lists_norm0.
 
 Lemma nth_firstn_lt {A} (l : list A) d m k : (m < k)%nat -> nth m (firstn k l) d = nth m l d.
 Proof.
@@ -209,7 +207,7 @@ Proof. intro. rewrite firstn_firstn. f_equal. lia. Qed.
 
 Lemma ge_dtlz1 (x : list R) obj : (1 <= obj)%Z -> (obj - 1 <= zlen x)%Z -> bm_dtlz1 x obj = spec_bm_dtlz1 x obj.
 Proof.
-  intros H1 H2. unfold bm_dtlz1, spec_bm_dtlz1, dtlz_g13, dtlz_xc, dtlz_xm. start. cbv zeta.
+  intros H1 H2. unfold bm_dtlz1, spec_bm_dtlz1, dtlz_g13, dtlz_xc, dtlz_xm. start0. cbv zeta.
   rewrite !slice_from, !slice_to by lia. try rewrite IZR_zlen.
   set (k := Z.to_nat (obj - 1)).
   set (g := 100 * (_ + _)).
@@ -242,7 +240,7 @@ Qed.
 
 Lemma ge_dtlz2 (x : list R) obj : (1 <= obj)%Z -> (obj - 1 <= zlen x)%Z -> bm_dtlz2 x obj = spec_bm_dtlz2 x obj.
 Proof.
-  intros H1 H2. unfold bm_dtlz2, spec_bm_dtlz2, dtlz_g2, dtlz_xc, dtlz_xm. start. cbv zeta.
+  intros H1 H2. unfold bm_dtlz2, spec_bm_dtlz2, dtlz_g2, dtlz_xc, dtlz_xm. start0. cbv zeta.
   rewrite !slice_from, !slice_to by lia.
   replace (obj - 2)%Z with ((obj - 1) - 1)%Z by lia.
   apply (dtlz234_shape (fun xi => 1 / 2 * xi * PI)); [reflexivity|lia|].
@@ -251,7 +249,7 @@ Qed.
 
 Lemma ge_dtlz3 (x : list R) obj : (1 <= obj)%Z -> (obj - 1 <= zlen x)%Z -> bm_dtlz3 x obj = spec_bm_dtlz3 x obj.
 Proof.
-  intros H1 H2. unfold bm_dtlz3, spec_bm_dtlz3, dtlz_g13, dtlz_xc, dtlz_xm. start. cbv zeta.
+  intros H1 H2. unfold bm_dtlz3, spec_bm_dtlz3, dtlz_g13, dtlz_xc, dtlz_xm. start0. cbv zeta.
   rewrite !slice_from, !slice_to by lia.
   replace (obj - 2)%Z with ((obj - 1) - 1)%Z by lia.
   apply (dtlz234_shape (fun xi => 1 / 2 * xi * PI)); [reflexivity|lia|].
@@ -260,7 +258,7 @@ Qed.
 
 Lemma ge_dtlz4 (x : list R) obj alpha : (1 <= obj)%Z -> (obj - 1 <= zlen x)%Z -> bm_dtlz4 x obj alpha = spec_bm_dtlz4 x obj alpha.
 Proof.
-  intros H1 H2. unfold bm_dtlz4, spec_bm_dtlz4, dtlz_g2, dtlz_xc, dtlz_xm. start. cbv zeta.
+  intros H1 H2. unfold bm_dtlz4, spec_bm_dtlz4, dtlz_g2, dtlz_xc, dtlz_xm. start0. cbv zeta.
   rewrite !slice_from, !slice_to by lia.
   replace (obj - 2)%Z with ((obj - 1) - 1)%Z by lia.
   apply (dtlz234_shape (fun xi => 1 / 2 * Rpow_total xi alpha * PI)); [reflexivity|lia|].
@@ -320,17 +318,17 @@ Qed.
 
 Lemma ge_dtlz5 (x : list R) n : (2 <= n)%Z -> (n - 1 <= zlen x)%Z -> bm_dtlz5 x n = spec_bm_dtlz5 x n.
 Proof.
-  intros H1 H2. unfold bm_dtlz5, spec_bm_dtlz5, dtlz_g2, dtlz_xc, dtlz_xm. start. cbv zeta.
+  intros H1 H2. unfold bm_dtlz5, spec_bm_dtlz5, dtlz_g2, dtlz_xc, dtlz_xm. start0. cbv zeta.
   rewrite !slice_from by lia. apply dtlz56_shape; assumption.
 Qed.
 Lemma ge_dtlz6 (x : list R) n : (2 <= n)%Z -> (n - 1 <= zlen x)%Z -> bm_dtlz6 x n = spec_bm_dtlz6 x n.
 Proof.
-  intros H1 H2. unfold bm_dtlz6, spec_bm_dtlz6, dtlz_g6, dtlz_xc, dtlz_xm. start. cbv zeta.
+  intros H1 H2. unfold bm_dtlz6, spec_bm_dtlz6, dtlz_g6, dtlz_xc, dtlz_xm. start0. cbv zeta.
   rewrite !slice_from by lia. apply dtlz56_shape; assumption.
 Qed.
 Lemma ge_dtlz7 (x : list R) n : (1 <= n)%Z -> bm_dtlz7 x n = spec_bm_dtlz7 x n.
 Proof.
-  intros H1. unfold bm_dtlz7, spec_bm_dtlz7, dtlz_g7, dtlz_xc, dtlz_xm. start. cbv zeta.
+  intros H1. unfold bm_dtlz7, spec_bm_dtlz7, dtlz_g7, dtlz_xc, dtlz_xm. start0. cbv zeta.
   rewrite !slice_from, !slice_to by lia. rewrite !map_id. reflexivity.
 Qed.
 
